@@ -122,6 +122,19 @@ impl<'a> Exec<'a> {
             "healthy" => self.env.healthy_addr(n),
             "nop2p" => strip_p2p(&self.env.healthy_addr(n)).0,
             "wrongid" => strip_p2p(&self.env.healthy_addr(n)).0.with(ghost()),
+            "dns" => {
+                // a healthy node behind a name (resolved through the hosts file or not at all: the lookup is bounded by T)
+                let full = self.env.healthy_addr(n);
+                let mut out = Multiaddr::empty();
+                for p in full.iter() {
+                    out.push(match p {
+                        Protocol::Ip4(_) => Protocol::Dns4("localhost".into()),
+                        other => other,
+                    });
+                }
+                out
+            }
+            "dns_bad" => format!("/dns4/no-such-host-{n}.invalid/tcp/4001").parse::<Multiaddr>().unwrap().with(ghost()),
             "refused" => self.env.refused.clone().with(ghost()),
             "blackhole" => self.env.blackhole.clone().with(ghost()),
             "garbage" => self.env.garbage[n % self.env.garbage.len()].clone().with(ghost()),
@@ -463,6 +476,7 @@ async fn run_exec(env: &Env, sched: &Value, seed: u64, fault: &str) -> Outcome {
     let deadline = Duration::from_millis(6 * t_ms + 500);
     let idle_min = Duration::from_millis(120);
     let settled;
+    let started = Instant::now();
     loop {
         x.pump(Duration::from_millis(60), |_, _| true).await;
         let idle = x.last_activity.elapsed();
@@ -473,6 +487,10 @@ async fn run_exec(env: &Env, sched: &Value, seed: u64, fault: &str) -> Outcome {
         }
         if idle >= deadline {
             settled = true; // judged: whatever is still outstanding had three times its bound
+            break;
+        }
+        if started.elapsed() > 20 * deadline {
+            settled = false; // events keep arriving (remotes keep connecting): no quiescence point, not judged
             break;
         }
     }
